@@ -5,6 +5,16 @@ IDS = ["C%02d" % i for i in range(1, 21)]
 
 # id -> (engine, category, technique, text, note, design_ref)
 CHECKS = {
+ "C01": ("E1-enumeration+CLI", "exploration",
+   "bounded-exhaustive enumeration of (basis, source, block size) on both engines against reference oracles; real CLI process chain per case",
+   "Every (basis, source) pair over {0,1,2}^<=5 (quick) / <=6 (thorough) at library block sizes 1..4, and every chunk-string basis (<=2/<=3 chunks from zero, 0xFF, high-byte, two seeded, a constructed weak-checksum collision, short tail) x every edit script (identity, chunk permutations, insert/delete/replace of k bytes at every alignment, junk prefixes around the 5000-slide normalisation boundary) at 3 / all 8 legal block sizes, on the sync and async engines: patch Ok and output == source, delta fields, copy bounds, signatures == per-block reference, engine-independence. CLI: signature|delta|patch chain and single-file sync (dst = basis, dst absent) as real processes; the .sig/.delta files must deserialize to the library values.",
+   "Bounded input space (see evidence bounds); release semantics; BLAKE3 collisions treated as impossible.",
+   "DESIGN.md §3 C01"),
+ "C16": ("E1-enumeration", "exploration",
+   "bounded-exhaustive enumeration against a textbook greedy reference decided by byte comparison",
+   "Same input space as C01. For every case and both engines: literal bytes <= the textbook greedy scan (reference uses byte comparison; its rolling pre-filter is cross-checked against the unfiltered variant), identical files cost < one block, a single k-byte edit in a file of distinct blocks costs <= k + 2 blocks.",
+   "Bounded input space; chunk contents from 7 kinds including all-0xFF and high-sum blocks at every legal block size, matches after 1..5003 slides.",
+   "DESIGN.md §3 C16"),
  "C17": ("E1-statespace", "model_checking",
    "explicit-state BFS over the real checksum objects (all op sequences to a depth, full-state dedup) + exhaustive macro-step sequences on boundary windows",
    "Every sequence of push/roll to depth 5 (quick) / 7 (thorough) from every initial window of length 0..4 over {00,01,80,FF}; every sequence to depth 6/9 over a 5-op alphabet from 42 windows whose sums exceed the modulus; every macro-step sequence (roll^k/push^k, k around L, 5000, 10001) to depth 2/3 on 19 boundary window lengths x 8 byte patterns. Every transition calls the real methods; the oracle is the exact-integer definition recomputed from the harness's own copy of the window, for both public types, plus component bounds and len().",
